@@ -63,6 +63,8 @@ type Bed struct {
 	mu        sync.Mutex
 	cond      *sync.Cond
 	sessions  []*gortsplib.ServerSession // in open order
+	sessIDs   map[*gortsplib.ServerSession]int
+	connIDs   map[*gortsplib.ServerConn]int
 	sessOpen  int
 	sessClose int
 	connOpen  int
@@ -93,18 +95,25 @@ type core struct{ b *Bed }
 
 type mConn struct{ *core }
 
-func (m mConn) OnConnOpen(_ *gortsplib.ServerHandlerOnConnOpenCtx) {
+func (m mConn) OnConnOpen(ctx *gortsplib.ServerHandlerOnConnOpenCtx) {
 	b := m.b
-	b.emit("conn_open")
+	b.mu.Lock()
+	if b.connIDs == nil {
+		b.connIDs = map[*gortsplib.ServerConn]int{}
+	}
+	id := len(b.connIDs) + 1
+	b.connIDs[ctx.Conn] = id
+	b.mu.Unlock()
+	b.emit("conn_open", "c", id)
 	b.mu.Lock()
 	b.connOpen++
 	b.cond.Broadcast()
 	b.mu.Unlock()
 }
 
-func (m mConn) OnConnClose(_ *gortsplib.ServerHandlerOnConnCloseCtx) {
+func (m mConn) OnConnClose(ctx *gortsplib.ServerHandlerOnConnCloseCtx) {
 	b := m.b
-	b.emit("conn_close")
+	b.emit("conn_close", "c", b.ConnID(ctx.Conn))
 	b.mu.Lock()
 	b.connClose++
 	b.cond.Broadcast()
@@ -117,11 +126,16 @@ func (m mSess) OnSessionOpen(ctx *gortsplib.ServerHandlerOnSessionOpenCtx) {
 	b := m.b
 	b.mu.Lock()
 	b.sessions = append(b.sessions, ctx.Session)
+	if b.sessIDs == nil {
+		b.sessIDs = map[*gortsplib.ServerSession]int{}
+	}
+	sid := len(b.sessIDs) + 1
+	b.sessIDs[ctx.Session] = sid
 	b.sessOpen++
 	h := b.OnSessionOpenHook
 	b.cond.Broadcast()
 	b.mu.Unlock()
-	b.emit("sess_open")
+	b.emit("sess_open", "s", sid)
 	if h != nil {
 		h(ctx.Session)
 	}
@@ -135,7 +149,7 @@ func (m mSess) OnSessionClose(ctx *gortsplib.ServerHandlerOnSessionCloseCtx) {
 	if h != nil {
 		h(ctx.Session, ctx.Error)
 	}
-	b.emit("sess_close")
+	b.emit("sess_close", "s", b.SessID(ctx.Session))
 	b.mu.Lock()
 	b.sessClose++
 	b.cond.Broadcast()
@@ -403,6 +417,23 @@ func (b *Bed) CurrentSession() *gortsplib.ServerSession {
 	}
 	return nil
 }
+
+// SessID returns the index (1-based, in open order) of a session, 0 if unknown.
+func (b *Bed) SessID(ss *gortsplib.ServerSession) int {
+	b.mu.Lock()
+	defer b.mu.Unlock()
+	return b.sessIDs[ss]
+}
+
+// ConnID returns the index (1-based, in open order) of a connection, 0 if unknown.
+func (b *Bed) ConnID(sc *gortsplib.ServerConn) int {
+	b.mu.Lock()
+	defer b.mu.Unlock()
+	return b.connIDs[sc]
+}
+
+// Emit lets drivers add events to the bed's current trace.
+func (b *Bed) Emit(ev string, kv ...any) { b.emit(ev, kv...) }
 
 // LastSession returns the most recently opened session, closed or not.
 func (b *Bed) LastSession() *gortsplib.ServerSession {
